@@ -21,6 +21,11 @@ CHECKS = {
                 text="Every arrival sequence of <=3 blocks over 3 names and <=4 blocks over 2 names (all depends_on subsets, equal/different scripts) plus random DAGs/cycles up to 30 blocks; "
                      "output must be whole blocks, once each, dependencies first; ValueError exactly for conflicts, missing dependencies and cycles. Same checker on rendered job options.",
                 note="exhaustive only within the stated bounds", ref="4/C15"),
+    "C16": dict(cat="fault_enumeration", technique="unmodified runner.sh executed in a mount-namespace container model with logging/failing stub tools; oracle over exit status, destination contents (run id / build token) and command log",
+                text="The three rendered runner.sh scripts are run over an enumerated matrix of flag combinations x invocation histories x every single failing step "
+                     "(environment setup, each cp, cmake/make or mkedanlzr/scram, the job, format conversion, sudo); exit 0 must coincide with this run's output at the destination, "
+                     "a failed step with a non-zero exit and nothing fresh delivered.",
+                note="stub tools stand for the real build/run tools (their exit-status conventions are trusted); needs unshare -m (else inconclusive)", ref="4/C16"),
 }
 
 PENDING_REASON = "check not built yet at this commit (work in progress, see DESIGN.md section 4)"
